@@ -85,6 +85,7 @@ class C11(PropBase):
         g = Gen(rng, big=init["big"], huge=init["huge"], odd_ints=init["odd_ints"],
                 customs=list(init["customs"]) + list(st.x.get("registered_late", [])), bad_text=init.get("bad_text", 0.0))
         g.mega = init.get("mega", 0.0)
+        g.versions = True
         return g
 
     def _app_op(self, st, rng, who):
@@ -382,6 +383,12 @@ class C11(PropBase):
                 raise Violation(P, "unexpected-protocol-error/%s" % to, "ProtocolError (%s) at message index %d of the stream, but the "
                                 "peer's termination is at index %s" % (ev["exc"]["msg"], pre_ret + n, ti))
             req = ev.get("exc_obj_request")
+            if req is None:
+                # ProtocolError.request is documented as "the incoming message that caused the protocol error": the termination
+                # is a message the peer sent, and this is the only way the application ever receives it
+                raise Violation(P, "termination-not-received/%s" % sent[ti]["t"], "the %s sent by the peer ended the session with a "
+                                "ProtocolError (%s) that does not carry the message (request=None): not a designed termination" % (
+                                    sent[ti]["t"], ev["exc"]["msg"]))
             if req is not None:
                 got = norm(canon_msg(req))
                 if got != sent[ti]:
